@@ -188,6 +188,9 @@ def run(ctx):
             ctx.violation("correspondence", {"op": "randbelow", "library": lib, "n": n, "model": o, "impl_result": res, "word_bits": ks}, site="randbelow", no_input=True)
     ctx.block("rejection-sampling-model-vs-impl", agree, len(ops))
     successive_independence(ctx)
+    # NaN-coded non-responders are units like any other: they are re-allocated within their stratum (recorded draws replayed through Model/Nan.lean)
+    from . import randtests as _rt
+    _rt.nan_strat_block(ctx, ctx.n(50, 500))
     # ---- seed=None: every call draws its own seed from numpy.random; across fresh calls the outcomes must still be
     #      uniform over the admissible set (a seed drawn from a tiny range shows up as missing outcomes)
     np.random.seed(ctx.seed + 12345)
@@ -226,6 +229,31 @@ def run(ctx):
             ctx.violation("oracle", {"helper": hname, "issue": "over plain integer seeds the joint outcome does not spread uniformly over the admissible set",
                                      "distinct_outcomes": len(cnt), "admissible": K, "chi2": chi, "trials": trials,
                                      "seeds": f"{ctx.seed * 1000003} + i, i < {trials}"}, site=hname)
+    # ---- draws made inside two_sample_conf_int (a root search over many p-value evaluations of two_sample_shift): the allocation
+    #      of the first repetition of the *second* evaluation, over many integer seeds, must still be uniform over the C(6,3) subsets
+    #      (state carried or badly restored between evaluations shows up here, not in the first evaluation)
+    xs_ = np.array([10.1, 11.2, 12.3]); ys_ = np.array([0.4, 1.5, 2.6]); reps_ = 2; per_eval = 2 + 2 * reps_
+    cnt = Counter(); bad_calls = 0; trials = ctx.n(400, 2400)
+    for i in range(trials):
+        seen_ = []
+        def rec(u, v, seen_=seen_):
+            seen_.append((tuple(np.asarray(u).tolist()), tuple(np.asarray(v).tolist()))); return float(np.mean(u) - np.mean(v))
+        rr = guarded(core.two_sample_conf_int, xs_, ys_, 0.8, "two-sided", int(ctx.seed * 99991 + i), reps_, rec, secs=60)
+        if rr[0] != "ok" or len(seen_) < 2 * per_eval or len(seen_) % per_eval:
+            bad_calls += 1; continue
+        u, v = seen_[per_eval + 2]          # second evaluation, first repetition
+        alloc = tuple(sorted([("x", t) for t in u if t in (10.1, 11.2, 12.3)] + [("y", t) for t in (0.4, 1.5, 2.6) if t not in v]))
+        cnt[alloc] += 1
+    ok_trials = sum(cnt.values())
+    ctx.case(("conf_int-second-evaluation",), True); ctx.count("two_sample_conf_int-evaluations", ok_trials)
+    if ok_trials >= trials // 2:
+        chi = sum((vv - ok_trials / 20) ** 2 / (ok_trials / 20) for vv in cnt.values()) + (20 - len(cnt)) * ok_trials / 20
+        if any(len(a) != 3 for a in cnt) or len(cnt) > 20 or chi > 19 + 12 * 6.2:
+            ctx.violation("oracle", {"call": "two_sample_conf_int", "x": xs_.tolist(), "y": ys_.tolist(), "reps": reps_, "issue": "the allocation drawn in the first repetition of the second p-value evaluation is not uniform over the 20 subsets (over integer seeds)",
+                                     "chi2_19dof": chi, "distinct": len(cnt), "trials": ok_trials, "seeds": f"{ctx.seed * 99991} + i, i < {trials}",
+                                     "most_common": [[str(k_), v_] for k_, v_ in cnt.most_common(3)]}, site="two_sample_conf_int")
+    else:
+        ctx.notes.append(f"two_sample_conf_int: {bad_calls} of {trials} calls did not follow the expected evaluation pattern; uniformity inside it not assessed")
     # ---- chi-square over real seeds (support only; generous threshold: false alarm probability < 1e-9)
     for gen in ("sha", "rs"):
         cnt = Counter()
